@@ -92,48 +92,65 @@ def setStatus (g : G) (i : Nat) (s : State) : G := { g with status := upd g.stat
 /-- `self.bfs_subtree(name)[0]` -/
 def subtree (cfg : Cfg) (i : Nat) : List Nat := (Dag.bfs cfg.dag i).getD []
 
-/-- one iteration of the submission retry loop, repeated while the submission
-fails and attempts remain; returns whether a submission succeeded -/
+/-- one iteration of the submission retry loop: `record.execute(adapter)` or
+`record.generate_script(..); record.restart(adapter)`; returns whether the
+submission succeeded -/
+def attempt (cfg : Cfg) (i : Nat) (restart : Bool) (g : G) : G × Bool :=
+  -- restart: the script is regenerated on every attempt; otherwise `mark_submitted`
+  let g := if restart then emit g (.gen i) else setStatus g i .PENDING
+  -- `_execute`: a local step is marked running before it is executed
+  let g := if cfg.sched i then g else setStatus g i .RUNNING
+  let ok := cfg.subOk g.subCount
+  let job := g.subCount + 1
+  let ev := if cfg.sched i then Ev.submit i restart ok job else Ev.localRun i restart ok job
+  let g := emit { g with subCount := g.subCount + 1,
+                         jobs := if ok then upd g.jobs i (g.jobs i ++ [job]) else g.jobs } ev
+  -- ghost ledger: a successful scheduler submission creates a live job
+  let g := if ok && cfg.sched i then
+      { g with oneJob := g.oneJob && !(g.live.contains i), live := ins i g.live,
+               peak := max g.peak (ins i g.live).length }
+    else g
+  (g, ok)
+
+/-- `while retcode != SubmissionCode.OK and num_restarts < self._submission_attempts` -/
 def submitLoop (cfg : Cfg) (i : Nat) (restart : Bool) : Nat → G → G × Bool
   | 0, g => (g, false)
   | k + 1, g =>
-    -- restart: the script is regenerated on every attempt; otherwise `mark_submitted`
-    let g := if restart then emit g (.gen i) else setStatus g i .PENDING
-    -- `_execute`: a local step is marked running before it is executed
-    let g := if cfg.sched i then g else setStatus g i .RUNNING
-    let ok := cfg.subOk g.subCount
-    let job := g.subCount + 1
-    let ev := if cfg.sched i then Ev.submit i restart ok job else Ev.localRun i restart ok job
-    let g := emit { g with subCount := g.subCount + 1,
-                           jobs := if ok then upd g.jobs i (g.jobs i ++ [job]) else g.jobs } ev
-    -- ghost ledger: a successful scheduler submission creates a live job
-    let g := if ok && cfg.sched i then
-        { g with oneJob := g.oneJob && !(g.live.contains i), live := ins i g.live,
-                 peak := max g.peak (ins i g.live).length }
-      else g
-    if ok then (g, true) else submitLoop cfg i restart k g
+    let r := attempt cfg i restart g
+    if r.2 then (r.1, true) else submitLoop cfg i restart k r.1
 
 /-- the "anything dependent on this step now failed" loop -/
 def failSubtree (cfg : Cfg) (g : G) (i : Nat) : G :=
   (subtree cfg i).foldl (fun g x => setStatus { g with failed := ins x g.failed } x .FAILED) g
 
+/-- start of `_execute_record`: (ghost) were all parents complete when this
+launch was decided?; the script is generated unless this is a restart -/
+def execPrep (cfg : Cfg) (g : G) (i : Nat) (restart : Bool) : G :=
+  let g := { g with depsOk := g.depsOk && (cfg.parents i).all (fun p => g.completed.contains p) }
+  if restart then g else emit g (.gen i)
+
+/-- `if self.dry_run: record.mark_end(State.DRYRUN); self.completed_steps.add(..); return` -/
+def dryMark (g : G) (i : Nat) : G :=
+  setStatus { g with completed := ins i g.completed } i .DRYRUN
+
+/-- the part of `_execute_record` after the retry loop -/
+def execFinish (cfg : Cfg) (g : G) (i : Nat) (ok : Bool) : G :=
+  if ok then
+    let g := { g with inProgress := ins i g.inProgress }
+    if cfg.sched i then g
+    else setStatus { g with completed := ins i g.completed,
+                            inProgress := rem i g.inProgress } i .FINISHED
+  else
+    -- the step is no longer tracked (repair D2); everything dependent on it failed
+    failSubtree cfg { g with inProgress := rem i g.inProgress } i
+
 /-- `_execute_record(record, adapter, restart)` -/
 def executeRecord (cfg : Cfg) (g : G) (i : Nat) (restart : Bool) : G :=
-  -- ghost: were all parents complete when this launch was decided?
-  let g := { g with depsOk := g.depsOk && (cfg.parents i).all (fun p => g.completed.contains p) }
-  let g := if restart then g else emit g (.gen i)
-  if cfg.dry then
-    setStatus { g with completed := ins i g.completed } i .DRYRUN
+  let g := execPrep cfg g i restart
+  if cfg.dry then dryMark g i
   else
     let r := submitLoop cfg i restart cfg.attempts g
-    let g := r.1
-    if r.2 then
-      let g := { g with inProgress := ins i g.inProgress }
-      if cfg.sched i then g
-      else setStatus { g with completed := ins i g.completed,
-                              inProgress := rem i g.inProgress } i .FINISHED
-    else
-      failSubtree cfg { g with inProgress := rem i g.inProgress } i
+    execFinish cfg r.1 i r.2
 
 /-- `mark_restart`'s budget test -/
 def canConsumeRestart (cfg : Cfg) (g : G) (i : Nat) : Bool :=
